@@ -92,7 +92,7 @@ def main():
             seen.add(vp.digest(h["labels"]))
     R.coverage["distinct_nontrivial"] = len(seen)
     R.coverage["rule"] = ("histories of add/advance/read operations against core.NewDeadlinerForT with a fake clock in a synctest bubble "
-                          "(kinds: corpus, random, far = deadlines hours away with large clock steps, race = an Add issued while a timer is ready and unserved (both orders admissible), burst = many duties on one deadline with a late consumer, edge = adds at/around the deadline instant and re-adds after the report); "
+                          "(kinds: corpus, random, duerace = several duties on one deadline with one re-registered at the deadline instant while the timer is ready, far = deadlines hours away with large clock steps, race = an Add issued while a timer is ready and unserved (both orders admissible), burst = many duties on one deadline with a late consumer, edge = adds at/around the deadline instant and re-adds after the report); "
                           "non-trivial = at least one report happened and at least one add was refused or repeated; distinct by hash of the observed label sequence")
     kinds = {}
     nlabels = 0
